@@ -33,20 +33,45 @@ def isMerkle (ty : Nat) : Bool := ty == tyMerkleProof || ty == tyMerkleUpdate
 /-- children of Merkle cells are taken one level higher -/
 def childLevel (ty l : Nat) : Nat := if isMerkle ty then l + 1 else l
 
+/-! Byte-level formulas, written here from the TON documentation (whitepaper 3.1.4: descriptor bytes
+`d1 = r + 8s + 32l`, `d2 = ⌊b/8⌋ + ⌈b/8⌉`; data padded with a 1 bit and zero bits to a byte boundary; depths as 2 bytes
+big endian). They do NOT use the model's `d1`, `d2`, `be16`, `Bits.toppedUp`, `Bits.bitsToBytes`: `impl_eq_spec`
+compares two separately written byte layouts (the equalities are lemmas in TongoProofs/Lemmas/CellHash.lean). -/
+
+/-- value of at most eight bits, most significant first, as the HIGH bits of a byte (missing low bits are zero) -/
+def byteOfBits (bs : List Bool) : UInt8 :=
+  UInt8.ofNat (bs.foldl (fun acc b => 2 * acc + (if b then 1 else 0)) 0 * 2 ^ (8 - bs.length))
+
+/-- the bytes of a bit string: byte `i` holds bits `8i … 8i+7`; a last incomplete byte is filled with zero bits -/
+def packBytes (bits : List Bool) : List UInt8 :=
+  (List.range ((bits.length + 7) / 8)).map fun i => byteOfBits ((bits.drop (8 * i)).take 8)
+
+/-- cell data as hashed: if the bit length is not a multiple of 8, a single 1 bit and then 0 bits up to the byte
+boundary are appended (the completion tag) -/
+def paddedData (bits : List Bool) : List UInt8 :=
+  if bits.length % 8 = 0 then packBytes bits
+  else packBytes (bits ++ [true] ++ List.replicate (7 - bits.length % 8) false)
+
+/-- a depth as two bytes, big endian -/
+def depthBytes (d : Nat) : List UInt8 := [UInt8.ofNat (d / 256), UInt8.ofNat (d % 256)]
+
 /-- `k`-th hash stored in a pruned branch -/
-def storedHash (bits : List Bool) (k : Nat) : List UInt8 := ((Bits.bitsToBytes bits).drop (2 + 32 * k)).take 32
-/-- `k`-th depth stored in a pruned branch carrying `n` hashes -/
+def storedHash (bits : List Bool) (k : Nat) : List UInt8 := ((packBytes bits).drop (2 + 32 * k)).take 32
+/-- `k`-th depth stored in a pruned branch carrying `n` hashes (two bytes big endian; bytes the branch does not have
+count as zero: the definition applies to well-formed pruned branches, see `wfNode`) -/
 def storedDepth (bits : List Bool) (n k : Nat) : Nat :=
-  let b := Bits.bitsToBytes bits
+  let b := packBytes bits
   (b.getD (2 + 32 * n + 2 * k) 0).toNat * 256 + (b.getD (2 + 32 * n + 2 * k + 1) 0).toNat
 
-/-- descriptor bytes at level `l` -/
+/-- descriptor bytes at level `l`: `d1 = refs + 8·exotic + 32·(mask restricted to levels < l)`,
+`d2 = ⌊bits/8⌋ + ⌈bits/8⌉` -/
 def descr (ty mask : Nat) (bits : List Bool) (nrefs l : Nat) : List UInt8 :=
-  [d1 nrefs (ty != 0) (maskBelow mask l), d2 bits.length]
+  [UInt8.ofNat (nrefs + (if ty = 0 then 0 else 8) + 32 * maskBelow mask l),
+   UInt8.ofNat (2 * (bits.length / 8) + (if bits.length % 8 = 0 then 0 else 1))]
 
 /-- depths (2 bytes big endian each) then hashes of the children at the child level of `l` -/
 def childrenPart (ty : Nat) (kh : List (Nat → List UInt8)) (kd : List (Nat → Nat)) (l : Nat) : List UInt8 :=
-  (kd.map (· (childLevel ty l))).flatMap be16 ++ (kh.map (· (childLevel ty l))).flatten
+  (kd.map (· (childLevel ty l))).flatMap depthBytes ++ (kh.map (· (childLevel ty l))).flatten
 
 def nodeDepth (ds : List Nat) : Nat := if ds.isEmpty then 0 else ds.foldl max 0 + 1
 
@@ -55,13 +80,13 @@ def hashLevel (H : List UInt8 → List UInt8) (ty mask : Nat) (bits : List Bool)
     (kh : List (Nat → List UInt8)) (kd : List (Nat → Nat)) : Nat → List UInt8
   | 0 =>
     if ty = tyPruned ∧ 0 < level mask then storedHash bits 0
-    else H (descr ty mask bits kh.length 0 ++ Bits.toppedUp bits ++ childrenPart ty kh kd 0)
+    else H (descr ty mask bits kh.length 0 ++ paddedData bits ++ childrenPart ty kh kd 0)
   | l + 1 =>
     if ty = tyPruned ∧ l + 1 < level mask then storedHash bits (popcount (maskBelow mask (l + 1)))
     else if !significant mask (l + 1) then hashLevel H ty mask bits kh kd l
     else if ty = tyPruned then
       -- own level of a pruned branch: the lowest level computed for it
-      H (descr ty mask bits kh.length (l + 1) ++ Bits.toppedUp bits ++ childrenPart ty kh kd (l + 1))
+      H (descr ty mask bits kh.length (l + 1) ++ paddedData bits ++ childrenPart ty kh kd (l + 1))
     else
       H (descr ty mask bits kh.length (l + 1) ++ hashLevel H ty mask bits kh kd l ++ childrenPart ty kh kd (l + 1))
 
